@@ -264,7 +264,7 @@ func init() {
 	register(&Check{ID: "C13", Level: "exploration",
 		Rule:   "call trees with arbitrary values (zero, self, new accounts, create endowments), frames that later revert (F1/F2/F3); balances observed at the wrapped Transfer seam vs Balance(addr).Changes() per call index; distinct = hash of event-kind sequence",
 		Assume: []string{"balances read from the real StateDB at the seam"},
-		Real:   real, Stub: stub, Gen: treeGen("C13", treeOpts{bindProb: 30, aspectKind: "noop", multiTx: true}), Run: treeCheck("C13", q(1, 2, false)),
+		Real:   real, Stub: stub, Gen: treeGen("C13", treeOpts{bindProb: 30, aspectKind: "noop", multiTx: true, journalSome: true}), Run: treeCheck("C13", q(1, 2, false)),
 		Runs: map[string]int{"quick": 500, "thorough": 5000}})
 }
 
